@@ -225,6 +225,9 @@ func tagsOf(steps []step, extra ...string) string {
 			if s.hdr.via == 1 {
 				set["dispatcher"] = true
 			}
+			if s.hdr.ulen != 0 {
+				set[[]string{"", "udplen-0", "udplen-8", "udplen-56", "udplen-tiny"}[s.hdr.ulen%5]] = true
+			}
 		}
 		if s.hdr != nil {
 			if len(s.hdr.dstRaw) != len(s.hdr.srcRaw) {
@@ -384,7 +387,10 @@ func genHdr(r *lib.Rng) *hdrSpec {
 		h.dstType = uint8(lib.Pick(r, 1, 2))
 		h.dstRaw = r.Bytes(4 * (int(h.dstType) + 1))
 	}
-	if h.ext == 0 && h.fwd == 0 && r.Intn(5) == 0 {
+	if h.fwd == 0 && r.Intn(12) == 0 {
+		h.ulen = uint8(1 + r.Intn(4))
+	}
+	if h.ext == 0 && h.fwd == 0 && h.ulen == 0 && r.Intn(5) == 0 {
 		h.spao = uint8(lib.Pick(r, spaoValid, spaoValid, spaoBadMAC, spaoWrongKey, spaoOtherSPI))
 	}
 	return h
@@ -664,6 +670,43 @@ func sizedTotals(thorough bool) []int {
 		ts = append(ts, t)
 	}
 	return append(ts, 2040, 2044, 2048, 2052, 2056)
+}
+
+// udpLenSteps: the same payloads (plain 48-byte request, request followed by garbage, intact
+// NTS request) under every form of the UDP length field.
+func udpLenSteps(r *lib.Rng) [][]step {
+	var out [][]step
+	for mode := uint8(ulenExact); mode <= ulenTiny; mode++ {
+		for kind := 0; kind < 4; kind++ {
+			s := step{sender: r.Intn(nSocks), k: kLiteral}
+			b0 := lib.Pick(r, validFirst...)
+			switch kind {
+			case 0:
+				s.data = header(r, b0, 3+r.Intn(2))
+			case 1:
+				s.data = append(header(r, b0, 3), trailing(r, lib.Pick(r, 1, 4, 28, 100, 400, 976), r.Intn(4))...)
+			case 2:
+				s.k, s.a, s.data = kNTS, int64(lib.Pick(r, 0, 8, 12)), []byte{b0}
+			default:
+				s.k, s.a, s.data = kNTS, int64(lib.Pick(r, 1, 2, 5, 13)), []byte{b0}
+			}
+			s.hdr = genHdr(r)
+			s.hdr.fwd, s.hdr.spao, s.hdr.ulen = 0, 0, mode
+			if r.Intn(4) != 0 { // mostly addressed to the listener, with readable host addresses
+				s.hdr.udpDst = scionPort
+				if len(s.hdr.srcRaw)%12 != 4 {
+					s.hdr.srcType, s.hdr.srcRaw = genHost(r, false)
+				}
+				if len(s.hdr.dstRaw)%12 != 4 {
+					s.hdr.dstType, s.hdr.dstRaw = genHost(r, false)
+				}
+			} else if s.hdr.underlay == endhostPort && s.hdr.udpDst != endhostPort {
+				s.hdr.udpDst = scionPort
+			}
+			out = append(out, []step{s})
+		}
+	}
+	return out
 }
 
 // genRaw: datagrams for the SCION ports that are no SCION/UDP packets: garbage of many
@@ -946,6 +989,16 @@ func child(a lib.Args) {
 	for _, total := range sizedTotals(thorough) {
 		for _, steps := range sizedSteps(r, total, true) {
 			d.runSCION(tagsOf(steps, "nts", "nts-size"), steps, r)
+		}
+	}
+	// every form of the UDP length field
+	nLen := 15
+	if thorough {
+		nLen = 300
+	}
+	for i := 0; i < nLen && !d.lost; i++ {
+		for _, steps := range udpLenSteps(r) {
+			d.runSCION(tagsOf(steps, "udplen"), steps, r)
 		}
 	}
 	// garbage and SCMP on both ports of the SCION listener
